@@ -2,22 +2,49 @@
     wiped.  Property theorems only; the model is Addr/Lock.v, the proofs are in
     Addr/LockProofs.v.
 
-    The model is parameterised by nine facts regenerated from waddrmgr's
-    source on every run (Generated/LockFacts.v, instantiated as [the_facts] in
-    Addr/LockCorr.v).  [C05_facts_of_this_tree] requires all nine to be true and is
-    proved by [eq_refl]: on a tree where one of them is false this file stops
-    compiling at that theorem (proof-side detection), while the
-    [C05_refuted_*] theorems in front of it, which hold on every tree, show for
-    each fact what goes wrong without it. *)
+    The model is parameterised by facts regenerated from waddrmgr's source on
+    every run (Generated/LockFacts.v, instantiated as [the_facts] in
+    Addr/LockCorr.v).  [C05_facts_of_this_tree] requires fourteen of them to be
+    true (nine about the lock discipline, five saying that lock() ZEROES what
+    it clears or drops) and is proved by [eq_refl]: on a tree where one of them
+    is false this file stops compiling at that theorem (proof-side detection),
+    while the [C05_refuted_*] theorems in front of it, which hold on every
+    tree, show for each fact what goes wrong without it.
+
+    Five further facts say that an object which leaves the manager's state
+    WHILE IT IS UNLOCKED (MarkUsed, InvalidateAccountCache, a replaced last
+    address, the derive-on-unlock queue, LRU eviction) is wiped first.  They are
+    FALSE on the present tree (known findings evicted_cleartext_survives_lock,
+    known_findings.json): lock() cannot reach such an object, and its clear text
+    survives Lock.  The model records every such buffer in [gone] instead of
+    forgetting it; the memory clause "no clear-text copy anywhere"
+    ([C05_locked_holds_no_cleartext_anywhere]) is therefore stated under the
+    premise [evict_ok the_facts], which this tree does not satisfy: on this
+    tree that theorem says nothing, and [C05_refuted_without_eviction_wipe]
+    says why.  What IS proved for this tree: everything the manager can still
+    reach is wiped ([C05_locked_holds_no_cleartext]), what lock() itself drops
+    is zeroed ([C05_lock_clears]), and nothing but a restart ever removes an
+    entry from [gone] ([C05_dropped_never_forgotten]). *)
 From Verif Require Import Base.Prelude Generated.LockFacts Addr.Lock Addr.LockProofs Addr.LockCorr.
 Local Open Scope N_scope.
 
 (* ------------------------------------------------------------------ witnesses (tree independent) *)
 
-Definition mkF9 (a b c d e f g h i : bool) : facts :=
+Definition mkAll (a b c d e f g h i z1 z2 z3 z4 z5 e1 e2 e3 e4 e5 : bool) : facts :=
   {| f_cache_checked := a; f_lock_purges_cache := b; f_lock_wipes_wscripts := c; f_lock_wipes_last := d;
      f_unlock_skips_keyless := e; f_keyless_not_queued := f; f_change_rejects_empty := g;
-     f_privkey_checks_first := h; f_unlock_preloads := i |}.
+     f_privkey_checks_first := h; f_unlock_preloads := i;
+     f_z_acct := z1; f_z_key := z2; f_z_script := z3; f_z_cache := z4; f_z_mgr := z5;
+     f_e_markused := e1; f_e_invalidate := e2; f_e_next := e3; f_e_unlock := e4; f_e_lru := e5;
+     f_cache_cap := 3 |}.
+Definition mkF9 (a b c d e f g h i : bool) : facts :=
+  mkAll a b c d e f g h i true true true true true true true true true true.
+(* lock() zeroes: account keys, address keys, scripts, cached keys, manager keys *)
+Definition mkZ (z1 z2 z3 z4 z5 : bool) : facts :=
+  mkAll true true true true true true true true true z1 z2 z3 z4 z5 true true true true true.
+(* dropped objects are wiped by: MarkUsed, InvalidateAccountCache, nextAddresses, Unlock, LRU eviction *)
+Definition mkE (e1 e2 e3 e4 e5 : bool) : facts :=
+  mkAll true true true true true true true true true true true true true true e1 e2 e3 e4 e5.
 Definition mkF (a b c d e f g : bool) : facts := mkF9 a b c d e f g true true.
 
 Definition last_rc (F : facts) (ops : list op) : option rc := last (map Some (snd (run F (init 4 9 1) ops))) None.
@@ -113,9 +140,53 @@ Theorem C05_refuted_without_account_preload_in_unlock :
 Proof. vm_compute. repeat split; reflexivity. Qed.
 Print Assumptions C05_refuted_without_account_preload_in_unlock.
 
+(** Clearing the FIELD is not wiping the BYTES.  lock() that drops a buffer
+    (`acctKeyPriv = nil`, `privKeyCT = nil`, `scriptClearText = nil`,
+    `privKeyCache.Delete`) without zeroing it first leaves nothing the manager
+    can reach ([wiped] holds) - and the clear text in memory ([gone_dead] does
+    not).  Without the in-place wipes of the manager's own keys [wiped] fails. *)
+Theorem C05_refuted_without_zeroing :
+  let res F ops := let s := after F ops in (locked s, wiped (sm s), gone_dead s) in
+  res (mkZ false true true true true) [OpUnlock 1; OpAcctProps 0 0; OpLock] = (true, true, false) /\
+  res (mkZ true false true true true) [OpUnlock 1; OpNextAddr 0 0 false; OpLock] = (true, true, false) /\
+  res (mkZ true true false true true) [OpUnlock 1; OpImportScript 0 5 KP2SH true; OpLock] = (true, true, false) /\
+  res (mkZ true true false true true) [OpUnlock 1; OpImportScript 0 5 KWitness true; OpLock] = (true, true, false) /\
+  res (mkZ true true true false true) [OpUnlock 1; OpAcctProps 0 0; OpDeriveCache 0 0 0 7; OpLock] = (true, true, false) /\
+  res (mkZ true true true true false) [OpUnlock 1; OpLock] = (true, false, true) /\
+  (* a failed Unlock on an unlocked manager runs the same lock() *)
+  res (mkZ true false true true true) [OpUnlock 1; OpNextAddr 0 0 false; OpUnlock 2] = (true, true, false) /\
+  res all_true [OpUnlock 1; OpAcctProps 0 0; OpNextAddr 0 0 false; OpImportScript 0 5 KWitness true;
+                OpDeriveCache 0 0 0 7; OpUnlock 2] = (true, true, true).
+Proof. vm_compute. repeat split; reflexivity. Qed.
+Print Assumptions C05_refuted_without_zeroing.
+
+(** An object that leaves the manager's state while the manager is unlocked is
+    out of lock()'s reach: unless the site that drops it wipes it, its clear
+    text survives Lock.  One history per site: MarkUsed (an address that is not
+    its account's last one), InvalidateAccountCache (account key and last-address
+    objects), nextAddresses (the last-address object loadAccountInfo built),
+    Unlock (the read-back object of an address issued while locked gets its key
+    and is forgotten), the LRU of derived keys (capacity 3 here) pushing out its
+    oldest entry.  With the five wipes in place every one of them ends clean. *)
+Theorem C05_refuted_without_eviction_wipe :
+  let res F ops := let s := after F ops in (locked s, wiped (sm s), gone_dead s) in
+  let h1 := [OpUnlock 1; OpNextAddr 0 0 false; OpNextAddr 0 0 false; OpMarkUsed 0 (KChain 0 0 0); OpLock] in
+  let h2 := [OpUnlock 1; OpAcctProps 0 0; OpInvalidate 0 0; OpLock] in
+  let h3 := [OpUnlock 1; OpAcctProps 0 0; OpNextAddr 0 0 false; OpLock] in
+  let h4 := [OpNextAddr 0 0 false; OpUnlock 1; OpLock] in
+  let h5 := [OpUnlock 1; OpAcctProps 0 0; OpCacheFill 0 0 0 100 4; OpLock] in
+  res (mkE false true true true true) h1 = (true, true, false) /\
+  res (mkE true false true true true) h2 = (true, true, false) /\
+  res (mkE true true false true true) h3 = (true, true, false) /\
+  res (mkE true true true false true) h4 = (true, true, false) /\
+  res (mkE true true true true false) h5 = (true, true, false) /\
+  map (res (mkE true true true true true)) [h1; h2; h3; h4; h5] = repeat (true, true, true) 5.
+Proof. vm_compute. repeat split; reflexivity. Qed.
+Print Assumptions C05_refuted_without_eviction_wipe.
+
 (* ------------------------------------------------------------------ the tree that is checked *)
 
-(** The source has the nine behaviours (see Generated/LockFacts.v for what
+(** The source has the fourteen behaviours (see Generated/LockFacts.v for what
     the extractor saw).  Fails to compile when one of them is missing. *)
 Theorem C05_facts_of_this_tree : facts_ok the_facts.
 Proof. repeat split; exact eq_refl. Qed.
@@ -148,9 +219,42 @@ Print Assumptions C05_locked_holds_no_cleartext.
 
 (** (iii) Lock itself, from ANY state. *)
 Theorem C05_lock_clears : forall s s',
-  step the_facts s OpLock = (s', ROk) -> locked s' = true /\ wiped (sm s') = true.
-Proof. intros s s'. exact (lock_clears_step the_facts s s' eq_refl eq_refl eq_refl). Qed.
+  step the_facts s OpLock = (s', ROk) ->
+  (locked s' = true /\ wiped (sm s') = true) /\
+  (* what lock() itself drops is zeroed; what was dropped before is out of its reach *)
+  exists g, gone s' = gone s ++ g /\ Forall dead g.
+Proof.
+  intros s s' H. split.
+  - exact (lock_clears_step the_facts s s' eq_refl eq_refl eq_refl eq_refl H).
+  - exact (lock_and_dropped the_facts s s' (facts_ok_zero the_facts C05_facts_of_this_tree) H).
+Qed.
 Print Assumptions C05_lock_clears.
+
+(** (iii) Nothing but a restart (a NEW manager) ever removes or changes an
+    entry of the record of dropped buffers: the model does not forget what the
+    manager can no longer reach. *)
+Theorem C05_dropped_never_forgotten : forall s o s' r,
+  (forall p, o <> OpOpen p) -> step the_facts s o = (s', r) -> exists g, gone s' = gone s ++ g.
+Proof. exact (dropped_never_forgotten the_facts). Qed.
+Print Assumptions C05_dropped_never_forgotten.
+
+(** (iii), complete - UNDER THE PREMISE that every site which drops an object
+    from the manager's state wipes it first ([evict_ok]: MarkUsed,
+    InvalidateAccountCache, nextAddresses, Unlock; false on the present tree,
+    see the header): for all histories no buffer the manager ever owned holds
+    clear text, reachable from the manager or not - except the derived keys the
+    LRU pushes out, which are covered when [lru_eviction_zeroes] holds too. *)
+Theorem C05_locked_holds_no_cleartext_anywhere : evict_ok the_facts ->
+  forall nsc pub priv ops, priv <> empty_pass ->
+  let s := exec the_facts (init nsc pub priv) ops in
+  gone_dead_but_lru s = true /\
+  (lru_eviction_zeroes = true ->
+   gone_dead s = true /\ (locked s = true \/ watch s = true -> wiped_all s = true)).
+Proof.
+  intros HE nsc pub priv ops Hp.
+  exact (locked_holds_no_cleartext_anywhere the_facts nsc pub priv ops C05_facts_of_this_tree HE Hp).
+Qed.
+Print Assumptions C05_locked_holds_no_cleartext_anywhere.
 
 (** (ii) For all histories (whatever accounts, addresses, imports and
     derive-on-unlock entries exist): the current private passphrase unlocks;
@@ -222,6 +326,19 @@ Example C05_nonvacuous :
     = [RWrongPass; RLocked; RLocked; RLocked; ROk; RWrongPass; ROk; ROk; ROk] /\
   wiped (sm (exec the_facts s [OpUnlock 1])) = true /\
   wiped (sm (exec the_facts s [OpLock])) = true.
+Proof. vm_compute. repeat split; reflexivity. Qed.
+
+(** The one-pass evaluation of a run of DeriveFromKeyPathCache calls agrees
+    with the call-by-call loop (capacity 3: with evictions, on a cache that
+    already holds entries of this and of another scope). *)
+Example C05_cache_fill_one_pass_agrees :
+  let F := mkE false false false false false in
+  let s := exec F (init 4 9 1) [OpUnlock 1; OpAcctProps 0 0; OpAcctProps 1 0; OpDeriveCache 1 0 0 2;
+                                OpDeriveCache 0 0 0 7; OpDeriveCache 0 0 1 1] in
+  cache_fill F 0 0 0 100 5 s = cache_fill_loop F 0 0 0 100 5 s /\
+  cache_fill F 0 0 0 100 1 s = cache_fill_loop F 0 0 0 100 1 s /\
+  cache_fill F 0 0 0 5 4 s = cache_fill_loop F 0 0 0 5 4 s /\       (* overlaps a cached path: the loop is used *)
+  gone_live_count GCache (fst (cache_fill F 0 0 0 100 5 s)) = 4%nat.
 Proof. vm_compute. repeat split; reflexivity. Qed.
 
 (** The premises of the access-control clauses are satisfiable: a locked state
